@@ -15,10 +15,12 @@
 EXTENDS Integers, Sequences, FiniteSets, TLC, Json
 CONSTANT TraceFile
 TraceLog == ndJsonDeserialize(TraceFile)
-VARIABLES l, holder, decided, sent, confirmed, awaiting, faults, flushSnap, polledAt, errCb, reported, traces
-vars == <<l, holder, decided, sent, confirmed, awaiting, faults, flushSnap, polledAt, errCb, reported, traces>>
+VARIABLES l, holder, decided, sent, confirmed, awaiting, faults, flushSnap, polledAt, errCb, reported, traces,
+          popped,    \* <<member, partition>> -> how many of its acknowledgement requests have had their callback
+          refused    \* <<member, partition, n>>: the broker answered the member's n-th acknowledgement request for the partition with an error code
+vars == <<l, holder, decided, sent, confirmed, awaiting, faults, flushSnap, polledAt, errCb, reported, traces, popped, refused>>
 EmptyF == [x \in {} |-> 0]
-Init == l = 1 /\ holder = EmptyF /\ decided = EmptyF /\ sent = EmptyF /\ confirmed = EmptyF /\ awaiting = EmptyF /\ faults = 0 /\ flushSnap = EmptyF /\ polledAt = EmptyF /\ errCb = {} /\ reported = {} /\ traces = 0
+Init == l = 1 /\ holder = EmptyF /\ decided = EmptyF /\ sent = EmptyF /\ confirmed = EmptyF /\ awaiting = EmptyF /\ faults = 0 /\ flushSnap = EmptyF /\ polledAt = EmptyF /\ errCb = {} /\ reported = {} /\ traces = 0 /\ popped = EmptyF /\ refused = {}
 Ev == TraceLog[l]
 Get(f, k, d) == IF k \in DOMAIN f THEN f[k] ELSE d
 Put(f, k, v) == [x \in (DOMAIN f) \cup {k} |-> IF x = k THEN v ELSE f[x]]
@@ -44,6 +46,10 @@ Checks(e) ==
          << <<(e.err = "<nil>") => (\A k \in DOMAIN awaiting : k[1] = e.m => awaiting[k] = <<>>), "FlushAcks returned before the callback of an earlier acknowledgement had run">>,
             <<(e.err = "<nil>") => (\A k \in Get(flushSnap, e.m, {}) : Terminal(Get(sent, <<e.m, k>>, 0)) \/ <<e.m, k>> \in reported \/ <<e.m, k[1]>> \in errCb),
               "FlushAcks returned although an acknowledgement made before it was neither sent nor reported as failed by a callback">> >>
+    [] e.ev = "ack_callback" ->
+         << <<\A i \in DOMAIN e.results : (e.results[i].err = "" /\ Get(awaiting, <<e.m, e.results[i].p>>, <<>>) # <<>>)
+                                             => <<e.m, e.results[i].p, Get(popped, <<e.m, e.results[i].p>>, 0) + 1>> \notin refused,
+              "the acknowledgement callback reported success for a partition whose acknowledgement the broker had answered with an error">> >>
     [] e.ev = "frame_undecodable" -> << <<FALSE, "a share request frame does not decode">> >>
     [] e.ev = "driver_failed" -> << <<FALSE, "driver died">> >>
     [] OTHER -> <<>>
@@ -68,27 +74,30 @@ Callback(aw, cf, sn, fl, m, rs) == IF rs = <<>> THEN <<aw, cf, sn, fl>> ELSE
    ELSE Callback(Put(aw, <<m, r.p>>, Tail(q)), IF r.err = "" THEN ApplySent(cf, Head(q)) ELSE cf, IF r.err = "" THEN sn ELSE MarkSent(sn, m, Head(q), TRUE),
                  IF r.err = "" THEN fl ELSE fl \cup {<<m, it.k>> : it \in Head(q)}, m, Tail(rs))
 Apply(e) ==
-  CASE e.ev = "reset" -> holder' = EmptyF /\ decided' = EmptyF /\ sent' = EmptyF /\ confirmed' = EmptyF /\ awaiting' = EmptyF /\ faults' = 0 /\ flushSnap' = EmptyF /\ polledAt' = EmptyF /\ errCb' = {} /\ reported' = {} /\ traces' = traces + 1
+  CASE e.ev = "reset" -> holder' = EmptyF /\ decided' = EmptyF /\ sent' = EmptyF /\ confirmed' = EmptyF /\ awaiting' = EmptyF /\ faults' = 0 /\ flushSnap' = EmptyF /\ polledAt' = EmptyF /\ errCb' = {} /\ reported' = {} /\ traces' = traces + 1 /\ popped' = EmptyF /\ refused' = {}
     [] e.ev = "polled" -> /\ holder' = PutAll(holder, RecKeys(e.recs), e.m) /\ decided' = PutAll(decided, RecKeys(e.recs), 0) /\ sent' = PutAll(sent, {<<e.m, k>> : k \in RecKeys(e.recs)}, 0)
                           /\ polledAt' = PutAll(polledAt, RecKeys(e.recs), faults)
                           /\ reported' = {x \in reported : ~(x[1] = e.m /\ x[2] \in RecKeys(e.recs))}
-                          /\ U(<<confirmed, awaiting, faults, flushSnap, traces, errCb>>)
+                          /\ U(<<confirmed, awaiting, faults, flushSnap, traces, errCb, popped, refused>>)
     [] e.ev = "ack_call" -> /\ decided' = (IF Terminal(e.status) THEN PutAll(decided, {k \in RecKeys(e.recs) : Get(holder, k, "") = e.m /\ ~Terminal(Get(decided, k, 0))}, e.status) ELSE decided)
-                            /\ U(<<holder, sent, confirmed, awaiting, faults, flushSnap, polledAt, traces, errCb, reported>>)
+                            /\ U(<<holder, sent, confirmed, awaiting, faults, flushSnap, polledAt, traces, errCb, reported, popped, refused>>)
     [] e.ev = "acks_sent" -> /\ sent' = MarkSent(sent, e.m, Items(e.batches), FALSE) /\ awaiting' = Enqueue(awaiting, e.m, e.batches, Parts(e.batches))
-                             /\ U(<<holder, decided, confirmed, faults, flushSnap, polledAt, traces, errCb, reported>>)
+                             /\ U(<<holder, decided, confirmed, faults, flushSnap, polledAt, traces, errCb, reported, popped, refused>>)
     [] e.ev = "ack_callback" -> /\ LET res == Callback(awaiting, confirmed, sent, {}, e.m, e.results)
                                        errParts == {e.results[i].p : i \in {j \in DOMAIN e.results : e.results[j].err # ""}}
                                    IN /\ awaiting' = res[1] /\ confirmed' = res[2] /\ sent' = res[3]
                                       \* an error for a partition also covers decisions that were dropped before being sent (stale after a move / reset)
                                       /\ reported' = reported \cup res[4] \cup {<<e.m, k>> : k \in {x \in DOMAIN decided : x[1] \in errParts /\ Get(holder, x, "") = e.m /\ Terminal(decided[x]) /\ ~Terminal(Get(sent, <<e.m, x>>, 0))}}
                                 /\ errCb' = errCb \cup {<<e.m, e.results[i].p>> : i \in {j \in DOMAIN e.results : e.results[j].err # ""}}
-                                /\ U(<<holder, decided, faults, flushSnap, polledAt, traces>>)
+                                /\ popped' = LET ps == {e.results[i].p : i \in {j \in DOMAIN e.results : Get(awaiting, <<e.m, e.results[j].p>>, <<>>) # <<>>}} IN
+                                             [x \in (DOMAIN popped) \cup {<<e.m, p>> : p \in ps} |-> IF x[1] = e.m /\ x[2] \in ps THEN Get(popped, x, 0) + 1 ELSE popped[x]]
+                                /\ U(<<holder, decided, faults, flushSnap, polledAt, traces, refused>>)
     [] e.ev = "flush_call" -> /\ flushSnap' = Put(flushSnap, e.m, {k \in DOMAIN decided : Terminal(decided[k]) /\ Get(holder, k, "") = e.m /\ Get(polledAt, k, -1) = faults /\ ~Terminal(Get(sent, <<e.m, k>>, 0)) /\ <<e.m, k>> \notin reported})
                               /\ errCb' = {x \in errCb : x[1] # e.m}
-                              /\ U(<<holder, decided, sent, confirmed, awaiting, faults, traces, polledAt, reported>>)
-    [] e.ev \in {"moved", "session_reset", "close_call"} -> faults' = faults + 1 /\ U(<<holder, decided, sent, confirmed, awaiting, flushSnap, polledAt, traces, errCb, reported>>)
-    [] OTHER -> U(<<holder, decided, sent, confirmed, awaiting, faults, flushSnap, polledAt, traces, errCb, reported>>)
+                              /\ U(<<holder, decided, sent, confirmed, awaiting, faults, traces, polledAt, reported, popped, refused>>)
+    [] e.ev \in {"moved", "session_reset", "close_call"} -> faults' = faults + 1 /\ U(<<holder, decided, sent, confirmed, awaiting, flushSnap, polledAt, traces, errCb, reported, popped, refused>>)
+    [] e.ev = "acks_refused" -> refused' = refused \cup {<<e.m, e.p, e.n>>} /\ U(<<holder, decided, sent, confirmed, awaiting, faults, flushSnap, polledAt, traces, errCb, reported, popped>>)
+    [] OTHER -> U(<<holder, decided, sent, confirmed, awaiting, faults, flushSnap, polledAt, traces, errCb, reported, popped, refused>>)
 Next == l <= Len(TraceLog) /\ Ok(Ev) /\ Apply(Ev) /\ l' = l + 1
 Spec == Init /\ [][Next]_vars
 Accepted == (l = Len(TraceLog) + 1) => PrintT(<<"ACCEPTED", Len(TraceLog), traces>>)
